@@ -22,7 +22,7 @@ func c01Profiles() []GenOpts {
 		{MaxStmts: 50, MaxDepth: 3, Funcs: 4, Strings: true, Containers: true, Structs: true, SmallInts: true, FuncLits: true, Ifaces: true, NamedTypes: true, Lib: true},
 		{MaxStmts: 40, MaxDepth: 3, Funcs: 3, Choice: true, Strings: true, Structs: true, FuncLits: true, Containers: true},
 		{MaxStmts: 50, MaxDepth: 3, Funcs: 4, Strings: true, Containers: true, Structs: true, Panics: true, Ifaces: true, NamedTypes: true},
-		{MaxStmts: 40, MaxDepth: 3, Funcs: 5, Strings: true, Containers: true, Structs: true, FuncLits: true, Ifaces: true, NamedTypes: true, NoGlobals: true, Packages: true, Lib: true},
+		{MaxStmts: 40, MaxDepth: 3, Funcs: 5, Strings: true, Containers: true, Structs: true, FuncLits: true, Ifaces: true, NamedTypes: true, Packages: true, Lib: true},
 	}
 }
 
